@@ -218,8 +218,10 @@ fn shaped(k: u64, rng: &Rng) -> String {
     let good = "contract Good%N% {\n    uint256 public total%N%;\n    address private _admin%N%;\n    constructor(uint256 t) {\n        total%N% = t;\n        _admin%N% = msg.sender;\n    }\n    function bump%N%() external {\n        total%N% += 1;\n    }\n}\n";
     let bad = "contract Bad%N% {\n    uint256 public count%N%;\n    function first%N%() public {\n        count%N% = 1;\n    }\n    constructor() {\n        count%N% = 2;\n    }\n}\n";
     let noctor = "contract Plain%N% {\n    uint256 internal value%N%;\n    address owner%N%;\n    function set%N%(uint256 v) external {\n        value%N% = v;\n        owner%N% = msg.sender;\n    }\n    function kill%N%() external {\n        selfdestruct(payable(msg.sender));\n    }\n}\n";
+    let guarded = "contract Guarded%N% {\n    address private _owner%N%;\n    function destroy() external {\n        require(msg.sender == _owner%N%, \"no\");\n        selfdestruct(payable(_owner%N%));\n    }\n    function update(uint256 v) public returns (uint256) {\n        return v * 4;\n    }\n}\n";
+    let open_ = "contract Open%N% {\n    function destroy() external {\n        selfdestruct(payable(msg.sender));\n    }\n    function update(uint256 v) public returns (uint256) {\n        return v / 3;\n    }\n    function _helper() private {}\n}\n";
     let st = "struct S%N% {\n    uint8 a;\n    uint256 b;\n    uint8 c;\n}\n";
-    let pool = [lib, iface, free, good, bad, noctor, st];
+    let pool = [lib, iface, free, good, bad, noctor, st, guarded, open_];
     let mut out = String::from("pragma solidity 0.8.17;\n");
     let n = rng.range(2, 6);
     let mut idx = k as usize;
